@@ -12,12 +12,15 @@ Box(B)   == (-B..B) \X (-B..B) \X (-B..B)
 DirsOf(B)  == { v \in Box(B) : v # Zero3 /\ GCD3(v[1], v[2], v[3]) = 1 }
 UDirsOf(B) == { v \in DirsOf(B) : LeadSign(v) > 0 }            \* unoriented directions
 
+\* segments two lattice steps long (both orientations): collinear objects can then overlap PARTLY (an origin or an end point strictly
+\* inside the other segment), which one-step segments never do
+LongSteps == { Scale(k, w) : k \in {2, -2}, w \in {<<1, 0, 0>>, <<0, 1, 0>>, <<0, 0, 1>>, <<1, 1, 0>>, <<1, -1, 1>>} }
 \* flat objects of one kind with defining points in `pts` and directions from a B-box
 FlatObjs(kind, pts, B) ==
   CASE kind = "Point"    -> { MkPoint(LP(p)) : p \in pts }
     [] kind = "Line"     -> { MkLine(LP(p), u) : p \in pts, u \in UDirsOf(B) }
     [] kind = "HalfLine" -> { MkHalfLine(LP(p), u) : p \in pts, u \in DirsOf(B) }
-    [] kind = "Segment"  -> { MkSegment(LP(p), LP(Add(p, v))) : p \in pts, v \in Box(B) \ {Zero3} }
+    [] kind = "Segment"  -> { MkSegment(LP(p), LP(Add(p, v))) : p \in pts, v \in (Box(B) \ {Zero3}) \cup LongSteps }
     [] kind = "Plane"    -> { MkPlane(LP(p), n) : p \in pts, n \in UDirsOf(B) }
 
 \* integer code of an object (for deterministic sharding); M keeps everything far below 2^31
